@@ -94,7 +94,8 @@ def execute(spec, backend, workdir):
                 built.gids.setdefault(g, uuid.uuid4())
             listed.append(built.gids[g])
         if spec['assets']['prev']:
-            sids = [release.dump(pickle.dumps(symbolic.Term('prev', i))) for i in range(len(listed))]
+            # (every third persisted state is the empty one - a falsy state that is not None)
+            sids = [release.dump(b'' if i % 3 == 1 else pickle.dumps(symbolic.Term('prev', i))) for i in range(len(listed))]
             release.put(asset.Tag(training=asset.Tag.Training(timestamp=datetime.datetime(2020, 1, 1), ordinal=1), states=sids))
             projgen.clear_caches()
         generation = release.get(None)
